@@ -21,8 +21,8 @@ RULE = ("Hypothesis draws well-formed definition closures (vlib.defgen.programs:
         "repeated/respelled/cyclic imports, constants and expressions, string constants, aliases of natives, of aliases and of imported "
         "structs, host and module ids, nested structs and messages, arrays with literal and expression lengths, signals, field-list "
         "reuse, reserved ids, all three compiler options drawn), half of them forced to the 5-file skeleton so that cross-file use "
-        "dominates; the opt-in classes tied to known defects (alias-of-imported-struct, alias-of-imported-struct-field, "
-        "struct-contains-message, string-special, prefix-names) are enabled in one program out of three so they cannot mask the rest.  "
+        "dominates; the classes that were tied to (now repaired) defects - alias-of-imported-struct, alias-of-imported-struct-field, "
+        "struct-contains-message, string-special, prefix-names - are enabled in every second program, singly and together.  "
         "Every program is compiled in-process; then: the Python module is imported in a pristine interpreter (a brand-new process for the "
         "first two programs of every shard, otherwise a fork of a process that has only imported pyrtma) and get_msg_cls(id) must be the "
         "class of every message; gcc -fsyntax-only must accept the header (closures that do not use core type names); node imports the "
@@ -216,7 +216,7 @@ def st_programs():
     skel = G.programs(skeleton=True)
     rich = G.programs(skeleton=True, rich=True)
     opt = st.sampled_from([SUSPECT, SUSPECT[:2], SUSPECT[2:3], SUSPECT[3:4], SUSPECT[4:]]).flatmap(lambda a: G.programs(skeleton=True, allow=a))
-    return st.one_of(plain, skel, rich, skel, opt, opt)
+    return st.one_of(plain, skel, rich, opt, opt, opt)
 
 
 def shard(seed, n, idx, quick):
